@@ -131,6 +131,27 @@ impl MemoryArea {
     }
 }
 
+#[cfg(ax_verif)]
+impl MemoryArea {
+    pub(crate) fn verif_extent(&self) -> (u64, u64, u32, usize) {
+        (self.start, self.length, self.access, self.data.len())
+    }
+
+    pub(crate) fn verif_data(&self) -> &[u8] {
+        &self.data
+    }
+
+    pub(crate) fn verif_view(&self) -> crate::verif::AreaView {
+        crate::verif::AreaView {
+            start: self.start,
+            length: self.length,
+            access: self.access,
+            name: self.name.clone(),
+            data: self.data.clone(),
+        }
+    }
+}
+
 #[wasm_bindgen]
 impl Axecutor {
     // TODO: Currently cannot read consecutive sections of memory
